@@ -69,6 +69,10 @@ class CovSession:
         self.enums = {}
         self.insts = []          # (shape name, covergroup object)
         self.events = []
+        self.bin_cache = {}      # (shape, coverpoint) -> bins dict shared by every instance (shape option share_bins)
+        self.item_cls = {}       # shape -> class of the sampled object (shape option objsample)
+        self.items = {}          # shape -> pool of objects handed to sample()
+        self.nsample = 0
 
     # ------------------------------------------------------------------ building
     def mk_var(self, sname, vn, vd):
@@ -103,15 +107,35 @@ class CovSession:
         sh = self.shapes[sname]
         sess = self
 
+        if sh.get("objsample"):
+            # the covergroup samples an OBJECT: coverpoints read its fields; the caller passes different objects
+            def item_init(self):
+                for vn, vd in sh["vars"].items():
+                    setattr(self, vn, sess.mk_var(sname, vn, vd))
+            self.item_cls[sname] = vsc.randobj(type(sh["cls"] + "_item", (object,), {"__init__": item_init}))
+            self.items[sname] = [self.item_cls[sname]() for _ in range(sh["objsample"])]
+
         def init(self):
-            self.with_sample({vn: sess.mk_var(sname, vn, vd) for vn, vd in sh["vars"].items()})
+            if sh.get("objsample"):
+                self.with_sample(dict(it=sess.item_cls[sname]()))
+                src = self.it
+            else:
+                self.with_sample({vn: sess.mk_var(sname, vn, vd) for vn, vd in sh["vars"].items()})
+                src = self
             if "atl" in sh:
                 self.options.at_least = sh["atl"]
             cpo = {}
             for cp in sh["cps"]:
                 kw = {}
                 if cp.get("bins"):
-                    kw["bins"] = {b["name"]: sess.mk_bin(b) for b in cp["bins"]}
+                    if sh.get("share_bins"):
+                        # ONE bins specification object serves every coverpoint declared with the same bins and every instance
+                        key = (sname, cp.get("bins_of", cp["name"]))
+                        if key not in sess.bin_cache:
+                            sess.bin_cache[key] = {b["name"]: sess.mk_bin(b) for b in cp["bins"]}
+                        kw["bins"] = sess.bin_cache[key]
+                    else:
+                        kw["bins"] = {b["name"]: sess.mk_bin(b) for b in cp["bins"]}
                 if cp.get("ign"):
                     kw["ignore_bins"] = {b["name"]: vsc.bin(*[rng_py(r) if not b.get("as_list") else list(r) for r in b["ranges"]])
                                          for b in cp["ign"]}
@@ -124,8 +148,8 @@ class CovSession:
                 if opts:
                     kw["options"] = opts
                 if cp.get("iff"):
-                    kw["iff"] = getattr(self, cp["iff"])
-                c = vsc.coverpoint(getattr(self, cp["var"]), **kw)
+                    kw["iff"] = getattr(src, cp["iff"])
+                c = vsc.coverpoint(getattr(src, cp["var"]), **kw)
                 setattr(self, cp["name"], c)
                 cpo[cp["name"]] = c
             for x in sh.get("xs", []):
@@ -137,7 +161,7 @@ class CovSession:
                 if opts:
                     kw["options"] = opts
                 if x.get("iff"):
-                    kw["iff"] = getattr(self, x["iff"])
+                    kw["iff"] = getattr(src, x["iff"])
                 setattr(self, x["name"], vsc.cross([cpo[n] for n in x["cps"]], **kw))
         T = type(sh["cls"], (object,), {"__init__": init})
         return vsc.covergroup(T)
@@ -284,13 +308,25 @@ class CovSession:
         e = self.guarded(do)
         self.events.append({"op": "new", "shape": sname, "exc": e, "obs": self.observe()})
 
-    def op_sample(self, op):
-        sname, cg = self.insts[op["inst"] - 1]
+    def sample_args(self, sname, vals):
         sh = self.shapes[sname]
         args = []
         for vn, vd in sh["vars"].items():
-            v = op["vals"][vn]
+            v = vals[vn]
             args.append(self.enums[(sname, vn)](v) if vd.get("enum") else v)
+        if sh.get("objsample"):
+            # hand over one of the pooled objects (in turn) carrying the values
+            pool = self.items[sname]
+            it = pool[self.nsample % len(pool)]
+            self.nsample += 1
+            for (vn, vd), a in zip(sh["vars"].items(), args):
+                setattr(it, vn, a)
+            return [it]
+        return args
+
+    def op_sample(self, op):
+        sname, cg = self.insts[op["inst"] - 1]
+        args = self.sample_args(sname, op["vals"])
         e = self.guarded(lambda: cg.sample(*args))
         self.events.append({"op": "sample", "inst": op["inst"], "vals": op["vals"], "exc": e, "obs": self.observe()})
 
@@ -300,11 +336,7 @@ class CovSession:
 
         def do():
             for vals in op["seq"]:
-                args = []
-                for vn, vd in sh["vars"].items():
-                    v = vals[vn]
-                    args.append(self.enums[(sname, vn)](v) if vd.get("enum") else v)
-                cg.sample(*args)
+                cg.sample(*self.sample_args(sname, vals))
         e = self.guarded(do)
         self.events.append({"op": "sweep", "inst": op["inst"], "seq": op["seq"], "exc": e, "obs": self.observe()})
 
